@@ -277,6 +277,71 @@ def enum_through_metamodule(res, T, t, cls):
                         res.violation(f"C09:readback:{T}.{sc.name}:metamodule-proxy", f"user-defined controller exposing {T}.{sc.name} ({where}): {value!r} ({how}) reads back {got!r}", case)
 
 
+class _IntLike(int):
+    """An int subclass (as IntEnum members, numpy-free 'typed ints', bools are): a number is a number."""
+
+
+def int_subclass_values(res, T, t, cls):
+    """In-range values handed over as int SUBCLASS instances (an application IntEnum member, a plain int subclass, a bool where
+    0 / 1 are in range): accepted and read back as that number, by attribute and by constructor keyword."""
+    import enum as _enum
+    for sc in t.controllers:
+        if sc.kind not in ("range", "compact", "no_offset") or not sc.attached:
+            continue
+        picks = sorted({sc.min, sc.max, (sc.min + sc.max) // 2})
+        App = _enum.IntEnum("App", {f"V{i}": v for i, v in enumerate(picks)})
+        values = [(_IntLike(v), v, "int-subclass") for v in picks] + [(m_, int(m_), "IntEnum") for m_ in App]
+        if sc.min <= 1 <= sc.max:
+            values.append((True, 1, "bool"))
+        for value, want, how in values:
+            for path in ("setattr", "constructor"):
+                res.case((T, sc.name, "int-subclass", how, want, path))
+                res.count("int_subclass_assignments")
+                case = {"type": T, "controller": sc.name, "value": want, "how": how, "path": path}
+                try:
+                    if path == "setattr":
+                        m = cls()
+                        setattr(m, sc.name, value)
+                    else:
+                        m = cls(**{sc.name: value})
+                except Exception as e:
+                    res.violation(f"C09:inrange-raised:{T}.{sc.name}:{path}", f"{T}.{sc.name} = {value!r} ({how}, in range {sc.min}..{sc.max}) raised {e!r}", case)
+                    continue
+                if _val(getattr(m, sc.name)) != want and getattr(m, sc.name) != want:
+                    res.violation(f"C09:readback:{T}.{sc.name}:{path}", f"{T}.{sc.name} = {value!r} ({how}) reads back {getattr(m, sc.name)!r}", case)
+
+
+def embedded_assignments(res, T, t, cls):
+    """A module that sits in the project of a constructed MetaModule which exposes one of its controllers: assigning that very
+    controller on the embedded module (in range) reads back exactly - whatever travels up and down the mapping."""
+    import rv.api as api
+    from rv.errors import ControllerValueError
+    for idx, sc in enumerate(t.controllers):
+        if sc.kind not in ("range", "compact") or not sc.attached or T in ("MetaModule", "Output"):
+            continue
+        emb = api.Project()
+        mod = emb.new_module(cls)
+        mm = api.m.MetaModule(project=emb)
+        mm.user_defined_controllers = 1
+        mm.mappings.values[0] = mm.Mapping((mod.index, idx))
+        mm.update_user_defined_controllers()
+        for v in sorted({sc.min, sc.max, (sc.min + sc.max) // 2, min(sc.max, sc.min + 10)}):
+            res.case((T, sc.name, "embedded-assignment", v))
+            res.count("embedded_assignments")
+            case = {"type": T, "controller": sc.name, "value": v, "path": "embedded-in-constructed-metamodule"}
+            try:
+                setattr(mod, sc.name, v)
+            except ControllerValueError as e:
+                res.violation(f"C09:inrange-raised:{T}.{sc.name}:embedded", f"{T}.{sc.name} = {v} on a module embedded in a MetaModule that exposes it raised {e!r}", case)
+                break
+            except Exception:
+                res.count("embedded_assignment_other_exception")
+                break
+            if getattr(mod, sc.name) != v:
+                res.violation(f"C09:readback:{T}.{sc.name}:embedded", f"{T}.{sc.name} = {v} on a module embedded in a MetaModule that exposes it reads back {getattr(mod, sc.name)!r}", case)
+                break
+
+
 def failed_loads(res):
     """Loads that fail (missing path, unknown module type, truncated file) precede the strict-mode probes."""
     import os
@@ -355,6 +420,8 @@ def run_shard(spec_, res):
         run_type(res, T, rng, spec_["tier"])
         held_out_of_range(res, T, spec.load()[T], MODULE_CLASSES[spec.load()[T].mtype])
         enum_through_metamodule(res, T, spec.load()[T], MODULE_CLASSES[spec.load()[T].mtype])
+        int_subclass_values(res, T, spec.load()[T], MODULE_CLASSES[spec.load()[T].mtype])
+        embedded_assignments(res, T, spec.load()[T], MODULE_CLASSES[spec.load()[T].mtype])
         res.count("types_visited")
     # the labelled aliases of a MetaModule's exposed controllers are assignment paths to controllers as well
     from .. import aliasprobe
